@@ -5,6 +5,7 @@ CONSTANTS
   EarlyClose = FALSE
   FlushFirst = FALSE
   Lapse = FALSE
+  ExpiryAware = TRUE
   Emit = FALSE
 INVARIANTS Safety NoStalePending NoStarvation
 VIEW view
